@@ -13,8 +13,10 @@
    Honest notion of freshness (`step_i` returns it): each of the two environments read for eff_H is current on every
    site of a WINDOW of L consecutive sites that contains the optimised sites: [0, L) while moving right,
    [n, L + n) while moving left; sites outside the window are other copies of the unit cell and may be old.
-   Tie to the code: transcription only (same structure as the finite model Model/Sweep.v whose stored-environment
-   sets are correspondence-checked; the instrumentation of harness/c13.py traces finite runs only). *)
+   Tie to the code: correspondence (K), harness/c13.py stream `env-trace-inf` with Model/SweepInfCheck.v
+   `check_inf_run`: instrumented infinite DMRG runs (two-site and one-site engine, L = 2..4); after every local update
+   the stored keys, every boolean of every stored tag, the ages and the two environments read for eff_H are compared
+   with step_i / get_lp_i / get_rp_i replayed from init_i on the schedule entries the engine executed. *)
 From TenpyV Require Import Base.Prelude Model.Sweep.
 
 Definition btag := list bool.
